@@ -154,7 +154,7 @@ def run_enum_incremental(case):
     exp = {n: Q(0) for n in names}
     leaves = 0
     try:
-        for p, contrib, _path in rng.enumerate_runs(one, max_leaves=case.get('max_leaves', 30000)):
+        for p, contrib, _path in rng.enumerate_runs(one, max_leaves=case.get('max_leaves', 8000), early=True):
             leaves += 1
             for n in names:
                 exp[n] = exp[n] + p * contrib[n]
@@ -239,7 +239,7 @@ def run_enum_batch(case):
     exp = {n: Q(0) for n in names}
     leaves = 0
     try:
-        for p, vals, _path in rng.enumerate_runs(one, max_leaves=case.get('max_leaves', 40000)):
+        for p, vals, _path in rng.enumerate_runs(one, max_leaves=case.get('max_leaves', 8000), early=True):
             leaves += 1
             for n in names:
                 exp[n] = exp[n] + p * vals[n]
